@@ -5,6 +5,7 @@
 import PercevalModel.Lemmas.C01
 import PercevalModel.Lemmas.C01Reg
 import PercevalModel.Lemmas.C01More
+import PercevalModel.Lemmas.C01Range
 import PercevalModel.Num.GQ
 
 open Matrix
@@ -1088,6 +1089,502 @@ theorem registry_exact_without_safeRun :
   · rw [h0, o0]; simp
   · rw [h1, o1]; simp
 
+/-! ## extension 8: the `port_range` argument of `add`, and the literal block assignment
+
+Model: `Model/C01Range.lean` (the assertion chain of `Circuit.add` on an `int` / `tuple` / `list` argument with its
+outcome class, `//=`'s `(pos, c)` form, the element-wise shifts of `merge` and `__iter__`, the slice assignment
+`nU[r[0]:r[-1]+1, r[0]:r[-1]+1] = cU` with its `len(r) == m` shortcut and the `u is None` start). -/
+
+/-- `Circuit.add` accepts a `port_range` argument exactly when it denotes `range(off, off + k)` for a first port
+`off ≥ 0` with `off + k ≤ m` (and `k > 0`): nothing else passes the assertion chain, and every such range does. -/
+theorem checkRange_ok_iff (m k : ℕ) (a : PortArg) :
+    checkRange m k a = .ok ↔ 0 < k ∧ ∃ off : ℕ, off + k ≤ m ∧ a.norm k = rangeFrom off k := by
+  constructor
+  · intro h
+    by_cases hc : consecutive (a.norm k) = true
+    · have e := eq_rangeFrom_of_consecutive _ hc
+      obtain ⟨n, hn⟩ : ∃ n, (a.norm k).length = n := ⟨_, rfl⟩
+      obtain ⟨p, hp⟩ : ∃ p, (a.norm k).headD 0 = p := ⟨_, rfl⟩
+      rw [hn, hp] at e
+      rw [checkRange_of_norm e] at h
+      cases n with
+      | zero => simp [verdict] at h
+      | succ n' =>
+        simp only [verdict] at h
+        split at h
+        · rename_i hb
+          split at h
+          · rename_i hk
+            subst hk
+            have hpn : ((p.toNat : ℕ) : ℤ) = p := by omega
+            refine ⟨by omega, p.toNat, by omega, ?_⟩
+            rw [hpn]; exact e
+          · simp at h
+        · simp at h
+    · rw [checkRange_not_consecutive (by simpa using hc)] at h
+      simp at h
+  · rintro ⟨hk, off, ho, e⟩
+    rw [checkRange_of_norm e]
+    cases k with
+    | zero => omega
+    | succ k' =>
+      have : (0 : ℤ) ≤ off ∧ (off : ℤ) + k' < m := by omega
+      simp [verdict, this]
+
+/-- the `int` form: accepted iff `0 ≤ p` and `p + k ≤ m` -/
+theorem checkRange_int (m k : ℕ) (p : ℤ) :
+    checkRange m k (.int p) = .ok ↔ 0 < k ∧ 0 ≤ p ∧ p + k ≤ m := by
+  have e : (PortArg.int p).norm k = rangeFrom p k := rfl
+  rw [checkRange_of_norm e]
+  cases k with
+  | zero => simp [verdict]
+  | succ k' =>
+    simp only [verdict, if_true]
+    constructor
+    · intro h
+      split at h
+      · rename_i hb; push_cast; omega
+      · simp at h
+    · rintro ⟨_, h1, h2⟩
+      have : 0 ≤ p ∧ p + k' < m := by push_cast at h2; omega
+      simp [this]
+
+/-- an accepted `tuple` / `list` is the `int` form of its first element: same decision, same stored range -/
+theorem checkRange_seq_is_int (m k : ℕ) (r : List ℤ) (h : checkRange m k (.seq r) = .ok) :
+    checkRange m k (.int (r.headD 0)) = .ok ∧ (PortArg.int (r.headD 0)).norm k = r := by
+  obtain ⟨hk, off, ho, e⟩ := (checkRange_ok_iff m k _).1 h
+  have e' : r = rangeFrom off k := e
+  cases k with
+  | zero => omega
+  | succ k' =>
+    subst e'
+    rw [headD_rangeFrom]
+    exact ⟨(checkRange_ok_iff _ _ _).2 ⟨hk, off, ho, rfl⟩, rfl⟩
+
+/-- `c //= (pos, x)` and `c //= x` (pos = 0) take the decision of `c.add(pos, x)` -/
+theorem checkRange_floordiv (m k : ℕ) (pos : ℤ) :
+    checkRange m k (floordivArg pos k) = checkRange m k (.int pos) := rfl
+
+/-- the only way to a `ValueError`: an empty range (`min(())`) -/
+theorem checkRange_valueError_iff (m k : ℕ) (a : PortArg) :
+    checkRange m k a = .valueError ↔ a.norm k = [] := by
+  constructor
+  · intro h
+    by_cases hc : consecutive (a.norm k) = true
+    · have e := eq_rangeFrom_of_consecutive _ hc
+      obtain ⟨n, hn⟩ : ∃ n, (a.norm k).length = n := ⟨_, rfl⟩
+      rw [hn] at e
+      rw [checkRange_of_norm e] at h
+      cases n with
+      | zero => exact List.length_eq_zero_iff.1 hn
+      | succ n' =>
+        simp only [verdict] at h
+        split at h
+        · split at h <;> simp at h
+        · simp at h
+    · rw [checkRange_not_consecutive (by simpa using hc)] at h
+      simp at h
+  · intro e
+    have e' : a.norm k = rangeFrom 0 0 := e
+    rw [checkRange_of_norm e']; rfl
+
+/-- link with the tree model: the argument check succeeds exactly when the argument is `range(off, off + c.m)` for
+an offset the model's `addOk` admits — the `WF` hypothesis of the tree theorems is what the assertions enforce -/
+theorem checkRange_ok_iff_addOk (m : ℕ) (c : Comp R) (a : PortArg) :
+    checkRange m c.size a = .ok ↔ ∃ off : ℕ, addOk m off c = true ∧ a.norm c.size = rangeFrom off c.size := by
+  rw [checkRange_ok_iff]
+  simp only [addOk, Bool.and_eq_true, decide_eq_true_eq]
+  constructor
+  · rintro ⟨hk, off, ho, e⟩; exact ⟨off, ⟨ho, hk⟩, e⟩
+  · rintro ⟨off, ⟨ho, hk⟩, e⟩; exact ⟨hk, off, ho, e⟩
+
+/-- merge branch: shifting an inner range `range(o, o + j)` (accepted by the sub-circuit of `k` modes) by the first
+port of an accepted outer range gives `range(o + off, o + off + j)`, a range the outer circuit accepts -/
+theorem mergeRange_ok {m k j : ℕ} {pr sp : List ℤ} (h1 : checkRange m k (.seq pr) = .ok)
+    (h2 : checkRange k j (.seq sp) = .ok) :
+    mergeRange pr sp = rangeFrom ((sp.headD 0).toNat + (pr.headD 0).toNat : ℕ) j ∧
+      checkRange m j (.seq (mergeRange pr sp)) = .ok := by
+  obtain ⟨hk, off, ho, e⟩ := (checkRange_ok_iff m k _).1 h1
+  obtain ⟨hj, o, hoo, e2⟩ := (checkRange_ok_iff k j _).1 h2
+  have e' : pr = rangeFrom off k := e
+  have e2' : sp = rangeFrom o j := e2
+  subst e' e2'
+  cases k with
+  | zero => omega
+  | succ k' =>
+  cases j with
+  | zero => omega
+  | succ j' =>
+    have key : mergeRange (rangeFrom (off : ℤ) (k' + 1)) (rangeFrom (o : ℤ) (j' + 1)) =
+        rangeFrom ((o + off : ℕ) : ℤ) (j' + 1) := by
+      unfold mergeRange
+      rw [headD_rangeFrom]
+      generalize (j' + 1) = n
+      have : ∀ (q : ℤ) (n : ℕ), (rangeFrom q n).map (· + (off : ℤ)) = rangeFrom (q + off) n := by
+        intro q n
+        induction n generalizing q with
+        | zero => rfl
+        | succ n ih => simp only [rangeFrom, List.map_cons, ih]; congr 2; omega
+      rw [this]; congr 1
+    rw [headD_rangeFrom, headD_rangeFrom, key]
+    refine ⟨by simp, (checkRange_ok_iff _ _ _).2 ⟨hj, o + off, by omega, rfl⟩⟩
+
+/-- `__iter__` shifts by the same rule (`pos + r[0]`) -/
+theorem iterRange_eq_mergeRange (r rc : List ℤ) : iterRange r rc = mergeRange r rc := rfl
+
+/-- on an accepted range the literal block assignment (slice `r[0] : r[-1]+1`, or `cU` itself when
+`len(r) == m`) is `embed` at the first port -/
+theorem litCU_eq_embed [Zero R] [One R] {m k : ℕ} {r : List ℤ} (h : checkRange m k (.seq r) = .ok)
+    (U : Matrix (Fin k) (Fin k) R) : litCU m r U = embed m (r.headD 0).toNat U := by
+  obtain ⟨hk, off, ho, e⟩ := (checkRange_ok_iff m k _).1 h
+  have e' : r = rangeFrom off k := e
+  cases k with
+  | zero => omega
+  | succ k' =>
+    subst e'
+    rw [litCU_rangeFrom ho, headD_rangeFrom]
+    simp
+
+/-- the literal loop of `_compute_circuit_unitary` (`u = None`, first item taken as it is, `cU @ u` afterwards,
+identity for an empty circuit) over accepted ranges is the ordered product of the leaves embedded at their first
+ports — the quantity `unitaryOf_eq_prod_flatten` is about -/
+theorem litUnitary_eq_prodFlat [CommRing R] (m : ℕ)
+    (l : List (List ℤ × (Σ k, Matrix (Fin k) (Fin k) R))) (h : RangesOk m l) :
+    litUnitary m l = prodFlat m (firstPorts l) := by
+  have key : ∀ (l : List (List ℤ × (Σ k, Matrix (Fin k) (Fin k) R))) (u : Option (MatV R m m)),
+      RangesOk m l →
+      ((litLoop m u l).getD (MatV.ofMatrix 1)).toMatrix =
+        prodFlat m (firstPorts l) * ((u.map MatV.toMatrix).getD 1) := by
+    intro l
+    induction l with
+    | nil => intro u _; cases u <;> simp [litLoop, firstPorts, prodFlat]
+    | cons p rest ih =>
+      intro u hl
+      obtain ⟨r, k, B⟩ := p
+      have hp : checkRange m k (.seq r) = .ok := hl (r, ⟨k, B⟩) (by simp)
+      have hr : RangesOk m rest := fun q hq => hl q (by simp [hq])
+      simp only [litLoop]
+      rw [ih _ hr]
+      cases u with
+      | none => simp [firstPorts, prodFlat, litCU_eq_embed hp]
+      | some u => simp [firstPorts, prodFlat, litCU_eq_embed hp, Matrix.mul_assoc]
+  have := key l none h
+  simpa [litUnitary, litUnitaryV] using this
+
+/-- non-vacuity and the outcome classes on concrete arguments (4 modes, a component of 2) -/
+example : checkRange 4 2 (.seq [1, 2]) = .ok := by decide
+example : checkRange 4 2 (.int 2) = .ok := by decide
+example : checkRange 4 2 (floordivArg 2 2) = .ok := by decide
+example : checkRange 4 2 (.seq [2, 1]) = .assertion := by decide      -- not consecutive
+example : checkRange 4 2 (.seq [1, 3]) = .assertion := by decide
+example : checkRange 4 2 (.seq [3, 4]) = .assertion := by decide      -- too high
+example : checkRange 4 2 (.int (-1)) = .assertion := by decide        -- negative
+example : checkRange 4 2 (.seq [1, 2, 3]) = .assertion := by decide   -- wrong length
+example : checkRange 4 2 (.seq [1]) = .assertion := by decide
+example : checkRange 4 2 (.seq []) = .valueError := by decide         -- `min(())`
+example : mergeRange [2, 3, 4] [1, 2] = [3, 4] := by decide
+example : checkRange 5 3 (.seq [2, 3, 4]) = .ok ∧ checkRange 3 2 (.seq [1, 2]) = .ok := by decide
+example : RangesOk 3 [([1, 2], ⟨2, swap2⟩), ([0], ⟨1, phaseI⟩), ([0, 1, 2], ⟨3, (1 : Matrix _ _ GQ)⟩)] := by
+  intro p hp
+  simp only [List.mem_cons, List.not_mem_nil, or_false] at hp
+  rcases hp with rfl | rfl | rfl <;> decide
+
+
+
+/-! ### range trees: the literal `add` / `__iter__` / `_compute_circuit_unitary` refine the first-port model -/
+section rtree
+/-- merge: the shifted items are items the outer circuit accepts … -/
+theorem RItems.shiftBy_WF {m k : ℕ} {pr : List ℤ} (h : checkRange m k (.seq pr) = .ok) :
+    (items : RItems R) → items.WF k → (items.shiftBy pr).WF m
+  | .nil, _ => by simp [RItems.shiftBy, RItems.WF]
+  | .cons r c rest, hw => by
+    simp only [RItems.WF] at hw
+    simp only [RItems.shiftBy, RItems.WF]
+    exact ⟨(mergeRange_ok h hw.1).2, hw.2.1, RItems.shiftBy_WF h rest hw.2.2⟩
+
+/-- … and their first ports are the inner first ports plus the outer first port (`Items.shift`) -/
+theorem RItems.abs_shiftBy {m k : ℕ} {pr : List ℤ} (h : checkRange m k (.seq pr) = .ok) :
+    (items : RItems R) → items.WF k → (items.shiftBy pr).abs = items.abs.shift (pr.headD 0).toNat
+  | .nil, _ => by simp [RItems.shiftBy, RItems.abs, Items.shift]
+  | .cons r c rest, hw => by
+    simp only [RItems.WF] at hw
+    simp only [RItems.shiftBy, RItems.abs, Items.shift]
+    rw [RItems.abs_shiftBy h rest hw.2.2]
+    have hm := (mergeRange_ok h hw.1).1
+    obtain ⟨_, hj, _, _, _, _⟩ := range_of_ok hw.1
+    congr 1
+    rw [hm]
+    rw [headD_rangeFrom_pos _ hj]; exact Int.toNat_natCast _
+
+theorem raddItem_WF {m : ℕ} {items : RItems R} {pr : List ℤ} {c : RComp R} (merge : Bool)
+    (hi : items.WF m) (hc : c.WF) (h : checkRange m c.size (.seq pr) = .ok) :
+    (raddItem items pr c merge).WF m := by
+  unfold raddItem
+  split
+  · rename_i k r c' rest
+    rw [RItems.WF_append]
+    exact ⟨hi, RItems.shiftBy_WF h _ hc⟩
+  · rw [RItems.WF_append]
+    exact ⟨hi, by simp only [RItems.WF]; exact ⟨h, hc, trivial⟩⟩
+
+theorem raddItem_abs {m : ℕ} {items : RItems R} {pr : List ℤ} {c : RComp R} (merge : Bool)
+    (hc : c.WF) (h : checkRange m c.size (.seq pr) = .ok) :
+    (raddItem items pr c merge).abs = addItem items.abs (pr.headD 0).toNat c.abs merge := by
+  unfold raddItem
+  split
+  · rename_i k r c' rest
+    rw [RItems.abs_append, RItems.abs_shiftBy h _ hc]
+    simp [RComp.abs, RItems.abs, addItem]
+  · rename_i hne
+    rw [RItems.abs_append]
+    cases merge with
+    | false => simp [addItem, RItems.abs]
+    | true =>
+      cases c with
+      | leaf k U => simp [addItem, RItems.abs, RComp.abs]
+      | circ k its =>
+        cases its with
+        | nil => simp [addItem, RItems.abs, RComp.abs]
+        | cons r c' rest => exact absurd rfl (hne k r c' rest rfl)
+
+mutual
+  theorem RComp.abs_WF : (c : RComp R) → c.WF → c.abs.WF
+    | .leaf _ _, _ => by simp [RComp.abs, Comp.WF]
+    | .circ m items, h => by
+      simp only [RComp.abs, Comp.WF]
+      exact RItems.abs_WF items m h
+  theorem RItems.abs_WF : (items : RItems R) → (m : ℕ) → items.WF m → items.abs.WF m
+    | .nil, _, _ => by simp [RItems.abs, Items.WF]
+    | .cons r c rest, m, h => by
+      simp only [RItems.WF] at h
+      obtain ⟨h1, h2, h3⟩ := h
+      obtain ⟨off, _, ho, _, e, _⟩ := range_of_ok h1
+      simp only [RItems.abs, Items.WF, e, RComp.abs_size]
+      exact ⟨ho, RComp.abs_WF c h2, RItems.abs_WF rest m h3⟩
+end
+
+mutual
+  theorem riter_eq : (c : RComp R) → c.WF → riter c = asRanges (flatten c.abs)
+    | .leaf k U, _ => by simp [riter, RComp.abs, flatten, asRanges]
+    | .circ m items, h => by
+      simp only [riter, RComp.abs, flatten]
+      exact riterItems_eq items m h
+  theorem riterItems_eq : (items : RItems R) → (m : ℕ) → items.WF m →
+      riterItems items = asRanges (flattenItems items.abs)
+    | .nil, _, _ => by simp [riterItems, RItems.abs, flattenItems, asRanges]
+    | .cons r c rest, m, h => by
+      simp only [RItems.WF] at h
+      obtain ⟨h1, h2, h3⟩ := h
+      obtain ⟨off, _, ho, _, e, e'⟩ := range_of_ok h1
+      simp only [riterItems, RItems.abs, flattenItems, riter_eq c h2, riterItems_eq rest m h3, asRanges,
+        List.map_append, List.map_map, e]
+      congr 1
+      apply List.map_congr_left
+      intro p _
+      simp only [Function.comp, iterRange, e', map_add_rangeFrom]
+      congr 2
+end
+
+section eval
+variable [CommRing R]
+
+mutual
+  theorem litCU_rlitV : (c : RComp R) → c.WF → ∀ (N : ℕ) (r : List ℤ),
+      litCU N r (rlitV c).toMatrix = litCU N r (unitaryOf c.abs)
+    | .leaf k U, _ => by
+      intro N r
+      show litCU N r (k := k) (rlitV (.leaf k U)).toMatrix = litCU N r (k := k) (unitaryOf (.leaf k U))
+      rw [unitaryOf_leaf, rlitV]
+      exact congrArg (fun M : Matrix (Fin k) (Fin k) R => litCU N r M) (MatV.toMatrix_ofMatrix U)
+    | .circ m items, h => by
+      intro N r
+      show litCU N r (k := m) (rlitV (.circ m items)).toMatrix =
+        litCU N r (k := m) (unitaryOf (.circ m items.abs))
+      rw [unitaryOf_circ, rlitV]
+      have := rlitLoop_eq items m h none
+      simp only [Option.map_none, Option.getD_none, mul_one] at this
+      exact congrArg (fun M : Matrix (Fin m) (Fin m) R => litCU N r M) this
+  theorem rlitLoop_eq : (items : RItems R) → (m : ℕ) → items.WF m → ∀ u : Option (MatV R m m),
+      ((rlitLoop m u items).getD (MatV.ofMatrix 1)).toMatrix =
+        prodItems m items.abs * ((u.map MatV.toMatrix).getD 1)
+    | .nil, m, _ => by
+      intro u
+      cases u <;> simp [rlitLoop, RItems.abs]
+    | .cons r c rest, m, h => by
+      intro u
+      simp only [RItems.WF] at h
+      obtain ⟨h1, h2, h3⟩ := h
+      have h1' : checkRange m c.abs.size (.seq r) = .ok := by rw [RComp.abs_size]; exact h1
+      simp only [rlitLoop]
+      rw [rlitLoop_eq rest m h3]
+      simp only [RItems.abs, prodItems_cons]
+      cases u with
+      | none =>
+        simp only [Option.map_some, Option.getD_some, MatV.toMatrix_ofMatrix, Option.map_none, Option.getD_none,
+          mul_one, litCU_rlitV c h2, litCU_eq_embed h1']
+      | some u =>
+        simp only [Option.map_some, Option.getD_some, MatV.toMatrix_ofMatrix, litCU_rlitV c h2, litCU_eq_embed h1',
+          Matrix.mul_assoc]
+end
+
+end eval
+end rtree
+
+/-- `Circuit.add` on port tuples refines `addItem` on first ports: an accepted add is `addItem` at an offset `addOk`
+admits (merge included: the element-wise shift of the stored tuples is `Items.shift`), a rejected add changes nothing -/
+theorem radd_refines_addItem {m : ℕ} (items : RItems R) (a : PortArg) (c : RComp R) (merge : Bool) (hc : c.WF) :
+    ((radd m items a c merge).1 = .ok ∧ ∃ off : ℕ, addOk m off c.abs = true ∧ a.norm c.size = rangeFrom off c.size ∧
+        (radd m items a c merge).2.abs = addItem items.abs off c.abs merge) ∨
+    ((radd m items a c merge).1 ≠ .ok ∧ (radd m items a c merge).1 = checkRange m c.size a ∧
+        (radd m items a c merge).2 = items) := by
+  unfold radd
+  cases hck : checkRange m c.size a with
+  | ok =>
+    left
+    obtain ⟨hk, off, ho, e⟩ := (checkRange_ok_iff m c.size a).1 hck
+    have hs : checkRange m c.size (.seq (a.norm c.size)) = .ok := (checkRange_ok_iff _ _ _).2 ⟨hk, off, ho, e⟩
+    refine ⟨rfl, off, ?_, e, ?_⟩
+    · simp only [addOk, RComp.abs_size, Bool.and_eq_true, decide_eq_true_eq]; exact ⟨ho, hk⟩
+    · simp only
+      rw [raddItem_abs merge hc hs, e, headD_rangeFrom_pos _ hk, Int.toNat_natCast]
+  | assertion => right; simp
+  | valueError => right; simp
+
+/-- accepted adds keep every stored range admissible -/
+theorem radd_WF {m : ℕ} (items : RItems R) (a : PortArg) (c : RComp R) (merge : Bool) (hi : items.WF m)
+    (hc : c.WF) : (radd m items a c merge).2.WF m := by
+  unfold radd
+  cases hck : checkRange m c.size a with
+  | ok =>
+    obtain ⟨hk, off, ho, e⟩ := (checkRange_ok_iff m c.size a).1 hck
+    exact raddItem_WF merge hi hc ((checkRange_ok_iff _ _ _).2 ⟨hk, off, ho, e⟩)
+  | assertion => exact hi
+  | valueError => exact hi
+
+theorem raddAll_WF (m : ℕ) (l : List (PortArg × RComp R × Bool)) (items : RItems R) (hi : items.WF m)
+    (hl : ∀ x ∈ l, x.2.1.WF) : (raddAll m items l).WF m := by
+  induction l generalizing items with
+  | nil => exact hi
+  | cons x rest ih =>
+    obtain ⟨a, c, mg⟩ := x
+    exact ih _ (radd_WF items a c mg hi (hl (a, c, mg) (by simp))) (fun y hy => hl y (by simp [hy]))
+
+/-- the literal code on stored port tuples (slice assignment, `len(r) == m` shortcut, `u = None` start, recursion
+through sub-circuits) computes `unitaryOf` of the first-port abstraction -/
+theorem rlit_eq_unitaryOf [CommRing R] (m : ℕ) (items : RItems R) (h : items.WF m) :
+    (rlitV (.circ m items)).toMatrix = unitaryOf (.circ m items.abs) := by
+  have := rlitLoop_eq items m h none
+  simp only [Option.map_none, Option.getD_none, mul_one] at this
+  rw [unitaryOf_circ]
+  show (rlitV (.circ m items)).toMatrix = prodItems m items.abs
+  rw [rlitV]; exact this
+
+/-- END TO END, no well-formedness hypothesis left: after ANY sequence of `add` calls on a new circuit of `m` modes
+(int / tuple / list / `//=` arguments, admissible or not, merged or nested, components leaves or circuits built the
+same way) the literal evaluation is the ordered product of the leaves embedded at the first ports, the literal
+iterator reports exactly `range(first port, first port + width)` for each of them, and these lie inside the circuit -/
+theorem rlit_after_any_adds [CommRing R] (m : ℕ) (l : List (PortArg × RComp R × Bool))
+    (hl : ∀ x ∈ l, x.2.1.WF) :
+    let items := raddAll m .nil l
+    (rlitV (.circ m items)).toMatrix = prodFlat m (flatten (.circ m items.abs)) ∧
+      riter (.circ m items) = asRanges (flatten (.circ m items.abs)) ∧
+      Flat.Fits (flatten (.circ m items.abs)) m := by
+  intro items
+  have hw : items.WF m := raddAll_WF m l .nil (by simp [RItems.WF]) hl
+  have ha : (Comp.circ m items.abs).WF := RComp.abs_WF (.circ m items) hw
+  obtain ⟨e, f⟩ := unitaryOf_eq_prod_flatten (.circ m items.abs) ha
+  exact ⟨(rlit_eq_unitaryOf m items hw).trans e, riter_eq (.circ m items) hw, f⟩
+
+/-- non-vacuity: a sub-circuit (swap on ports (1, 2) of 3) merged at `(1, 2, 3)` of 5 modes after a rejected add -/
+def exRInner : RComp GQ := .circ 3 (raddAll 3 .nil [(.seq [1, 2], .leaf 2 swap2, false)])
+def exRAdds : List (PortArg × RComp GQ × Bool) :=
+  [(.seq [4, 5], .leaf 2 swap2, false), (.seq [1, 2, 3], exRInner, true), (.int 0, .leaf 1 phaseI, false)]
+
+example : (riter (.circ 5 (raddAll 5 .nil exRAdds))).map (·.1) = [[2, 3], [0]] := by decide
+example : ∀ x ∈ exRAdds, x.2.1.WF := by
+  intro x hx
+  simp only [exRAdds, List.mem_cons, List.not_mem_nil, or_false] at hx
+  rcases hx with rfl | rfl | rfl
+  · trivial
+  · exact raddAll_WF 3 _ .nil (by simp [RItems.WF]) (by intro y hy; simp at hy; subst hy; trivial)
+  · trivial
+
+
+/-! ### unitarity of the literal evaluation -/
+section runitary
+variable [CommRing R] [StarRing R]
+
+mutual
+  theorem RComp.abs_allUnitary : (c : RComp R) → c.AllUnitary → c.abs.AllUnitary
+    | .leaf _ _, h => by simpa [RComp.abs, Comp.AllUnitary, RComp.AllUnitary] using h
+    | .circ _ items, h => by
+      simp only [RComp.abs, Comp.AllUnitary]
+      exact RItems.abs_allUnitary items (by simpa [RComp.AllUnitary] using h)
+  theorem RItems.abs_allUnitary : (items : RItems R) → items.AllUnitary → items.abs.AllUnitary
+    | .nil, _ => by simp [RItems.abs, Items.AllUnitary]
+    | .cons _ c rest, h => by
+      simp only [RItems.AllUnitary] at h
+      simp only [RItems.abs, Items.AllUnitary]
+      exact ⟨RComp.abs_allUnitary c h.1, RItems.abs_allUnitary rest h.2⟩
+end
+
+theorem RItems.allUnitary_append : (a b : RItems R) → ((a.append b).AllUnitary ↔ a.AllUnitary ∧ b.AllUnitary)
+  | .nil, b => by simp [RItems.append, RItems.AllUnitary]
+  | .cons r c rest, b => by
+    simp [RItems.append, RItems.AllUnitary, RItems.allUnitary_append rest b, and_assoc]
+
+theorem RItems.allUnitary_shiftBy (pr : List ℤ) : (a : RItems R) → ((a.shiftBy pr).AllUnitary ↔ a.AllUnitary)
+  | .nil => by simp [RItems.shiftBy, RItems.AllUnitary]
+  | .cons r c rest => by simp [RItems.shiftBy, RItems.AllUnitary, RItems.allUnitary_shiftBy pr rest]
+
+theorem radd_allUnitary {m : ℕ} (items : RItems R) (a : PortArg) (c : RComp R) (merge : Bool)
+    (hi : items.AllUnitary) (hc : c.AllUnitary) : (radd m items a c merge).2.AllUnitary := by
+  unfold radd
+  cases checkRange m c.size a with
+  | ok =>
+    simp only [raddItem]
+    split
+    · rename_i k r c' rest
+      rw [RItems.allUnitary_append, RItems.allUnitary_shiftBy]
+      exact ⟨hi, by simpa [RComp.AllUnitary] using hc⟩
+    · rw [RItems.allUnitary_append]
+      exact ⟨hi, by simp only [RItems.AllUnitary]; exact ⟨hc, trivial⟩⟩
+  | assertion => exact hi
+  | valueError => exact hi
+
+/-- the matrix the literal code reports after ANY sequence of `add` calls with unitary leaves is unitary -/
+theorem rlit_isUnitary_after_any_adds (m : ℕ) (l : List (PortArg × RComp R × Bool))
+    (hl : ∀ x ∈ l, x.2.1.WF) (hu : ∀ x ∈ l, x.2.1.AllUnitary) :
+    IsUnitary (rlitV (.circ m (raddAll m .nil l))).toMatrix := by
+  have hw : (raddAll m .nil l).WF m := raddAll_WF m l .nil (by simp [RItems.WF]) hl
+  have hU : ∀ (l : List (PortArg × RComp R × Bool)) (items : RItems R), items.AllUnitary →
+      (∀ x ∈ l, x.2.1.AllUnitary) → (raddAll m items l).AllUnitary := by
+    intro l
+    induction l with
+    | nil => intro items hi _; exact hi
+    | cons x rest ih =>
+      intro items hi hx
+      obtain ⟨a, c, mg⟩ := x
+      exact ih _ (radd_allUnitary items a c mg hi (hx (a, c, mg) (by simp))) (fun y hy => hx y (by simp [hy]))
+  have hu' := hU l .nil (by simp [RItems.AllUnitary]) hu
+  rw [rlit_eq_unitaryOf m _ hw]
+  exact unitaryOf_isUnitary (.circ m (raddAll m .nil l).abs) (RComp.abs_WF (.circ m _) hw)
+    (RComp.abs_allUnitary (.circ m _) (by simpa [RComp.AllUnitary] using hu'))
+
+end runitary
+
+example : ∀ x ∈ exRAdds, x.2.1.AllUnitary := by
+  have h1 : IsUnitary swap2 := by unfold IsUnitary; decide +kernel
+  have h2 : IsUnitary phaseI := by unfold IsUnitary; decide +kernel
+  intro x hx
+  simp only [exRAdds, List.mem_cons, List.not_mem_nil, or_false] at hx
+  rcases hx with rfl | rfl | rfl
+  · exact h1
+  · show (RComp.circ 3 (raddAll 3 .nil [(.seq [1, 2], .leaf 2 swap2, false)])).AllUnitary
+    simp only [RComp.AllUnitary]
+    exact radd_allUnitary _ _ _ _ (by simp [RItems.AllUnitary]) h1
+  · exact h2
+
 /-
   Outside the model (see manifest.d/C01.json):
   * validated only: the symbolic path — `compute_unitary(use_symbolic=True)` is compared, after numeric evaluation
@@ -1106,6 +1603,11 @@ theorem registry_exact_without_safeRun :
     the converse for histories with merge / copy under a weaker rank test (would need a change of `Op.ok` / `applyOp`);
   * `registry_exact` is a sufficient condition with necessity witnesses, not an equivalence for every history
     (`registry_exact_without_safeRun`: an unsafe history whose registries are exact);
+  * port_range layer (extension 8): tuple / list elements are ints (bool, float — `(0, 1.0)` passes the assertion
+    `isinstance(x, int) and i == 0 or x == port_range[i-1] + 1` for `i > 0` — and numpy integers are outside the model);
+    numpy's negative-index wrap-around and shape errors cannot occur on accepted ranges and are total defaults in
+    `sliceEmbed` / `asIs`; range trees are values without sharing: the heap model keeps first ports only and is not
+    re-proved over port tuples (link: `radd_refines_addItem` per operation); `multiplier = 2` (use_polarization) is C13;
   * not modelled: `Expression` parameters, bounds and periodic wrapping of `Parameter` (C14), `fix_value`,
     `reset_parameters`, polarisation (C13), `inverse` (C11), `getitem` / `depths` / `ncomponents`, cyclic `add`
     (evaluation does not terminate).
